@@ -41,6 +41,10 @@ func init() {
 		return simple("ok")
 	}
 	extSteps["gc"] = func(p *prog, idx int, toks []string) *rec {
+		if own.enabled {
+			// ownership tracing identifies slices by address: no collection while a program runs
+			return simple("ok")
+		}
 		runtime.GC()
 		runtime.Gosched()
 		return simple("ok")
